@@ -335,19 +335,19 @@ with MsSqlImpl.impl_store.impl_manager as impl:
 
     @impl(ops.is_inf)
     def _is_inf(x):
-        return False
+        return sqa.literal(False)
 
     @impl(ops.is_not_inf)
     def _is_not_inf(x):
-        return True
+        return sqa.literal(True)
 
     @impl(ops.is_nan)
     def _is_nan(x):
-        return False
+        return sqa.literal(False)
 
     @impl(ops.is_not_nan)
     def _is_not_nan(x):
-        return True
+        return sqa.literal(True)
 
     @impl(ops.pow)
     def _pow(x, y):
